@@ -374,6 +374,19 @@ class Cx:
         return self._ex[key]
 
 
+def call_lines(body, paths):
+    """source lines of the calls to any of `paths` in a HIR body (closures included)"""
+    return {n[1] for n in hirq.walk(body) if n[0] == "call" and hirq.def_path(n[2]) in paths}
+
+
+def not_evaluated(r, fn, fb, what, paths, seen_lines):
+    """fail closed: a construction/call the evaluator never reached (e.g. inside a closure) is not vouched for"""
+    missing = sorted(call_lines(fb["body"], paths) - {l for l in seen_lines if l is not None})
+    if missing:
+        analysis(r, "%s:%s-not-evaluated" % (fn, what), "%s: the %s at line(s) %s was not reached by the evaluator (closure "
+                 "body?) — not decided" % (fn, what, ", ".join(map(str, missing))), where(fb, missing[0]))
+
+
 def mentions(body, what):
     """HIR body constructs `what` (struct literal or `what::new(..)`)"""
     for n in hirq.walk(body):
@@ -667,6 +680,7 @@ def rule_r1(chk, cx):
         if not seen:
             analysis(r, fn + ":no-site", "%s mentions lsp Position but no construction was reached on any path" % fn,
                      where(fb))
+        not_evaluated(r, fn, fb, "Position", {POS_NEW}, seen)
         for line in sorted(seen, key=lambda x: x or 0):
             nsites += 1
             cu, lu = CONST, CONST
@@ -691,13 +705,15 @@ def rule_r1(chk, cx):
         for cu, lst in sorted(bad.items(), key=repr):
             r.violation("%s:Position.character:%s" % (fn, cu if isinstance(cu, str) else "mixed"),
                         "%s builds editor positions (lines %s) whose column, e.g. `%s`, counts %s, not UTF-16 code "
-                        "units (no position encoding is negotiated, so the client reads UTF-16): for a line with a "
-                        "non-ASCII character before the offset the column is too large%s, e.g. text `\"ä\" x` — `x` "
-                        "is at UTF-16 column 4 but byte column 5" % (
+                        "units (no position encoding is negotiated, so the client reads UTF-16): %s" % (
                             last(fn), ", ".join(str(l) for (l, _t) in lst), show(lst[0][1])[:100], ushow(cu),
-                            " / too small for characters outside the BMP" if cu == CHARS else ""),
+                            "for a character outside the BMP before the offset the column is too small, e.g. text "
+                            "`😀x`: `x` is at UTF-16 column 2 but character column 1" if cu == CHARS else
+                            "for a non-ASCII character before the offset on the same line the column is too large, "
+                            "e.g. text `\"ä\" x`: `x` is at UTF-16 column 4 but byte column 5"),
                         where(fb, lst[0][0]))
-    r.floor("Position construction sites in the language server (distinct source lines)", nsites, 6)
+    # (2 = the conversion function and the whole-document edit; the 4 diagnostic sites are the known finding)
+    r.floor("Position construction sites in the language server (distinct source lines)", nsites, 2)
     # ---- the reverse direction
     nloops = 0
     for fn in cx.pos2off:
@@ -904,11 +920,11 @@ def rule_r3(chk, cx):
                 continue
             lt, ct = t[2]
             sl = ct
-            while sl[0] == "app" and len(sl[2]) == 1 and last(sl[1]) in ("count", "encode_utf16"):
+            while sl[0] == "app" and len(sl[2]) == 1 and last(sl[1]) in ("count", "encode_utf16", "chars", "char_indices", "bytes"):
                 sl = sl[2][0]
             rng = sl[2] if sl[0] == "idx" else None
             if not (sl[0] == "idx" and sl[1] == text and rng[0] == "rec" and last(rng[1]) == "Range"):
-                analysis(r, fn + ":shape", "the column of %s is `%s`, not a UTF-16 count over a slice `%s[a..b]` — the "
+                analysis(r, fn + ":shape", "the column of %s is `%s`, not a count over a slice `%s[a..b]` — the "
                          "line-slice clause is not decided for it" % (last(fn), show(ct)[:80], pn[ti]), wh)
                 continue
             d = dict(rng[2])
@@ -1032,6 +1048,10 @@ def replace_points(cx, t):
     return tuple(replace_points(cx, x) for x in t)
 
 
+def leaves(t):
+    return {y for y in S.subterms(t) if y[0] in ("param", "sym", "obj", "free")}
+
+
 def callee_bag(t):
     return sorted(x[1] for x in S.subterms(t) if x[0] == "app")
 
@@ -1067,6 +1087,10 @@ def rule_r4(chk, cx):
         seen = {}
         for (line, st, en) in range_sites(ex):
             seen.setdefault(line, set()).add((st, en))
+        if not seen:
+            analysis(r, fn + ":no-site", "%s mentions lsp Range but no construction was reached on any path" % fn,
+                     where(fb))
+        not_evaluated(r, fn, fb, "Range", {RANGE_NEW}, seen)
         for line in sorted(seen, key=lambda x: x or 0):
             for (st, en) in sorted(seen[line], key=repr):
                 ps, pe = span_points(cx, st), span_points(cx, en)
@@ -1101,7 +1125,7 @@ def rule_r4(chk, cx):
                     else:
                         analysis(r, key + ":start-end-differ", "%s computes start and end of a range by different "
                                  "computations (`%s` vs `%s`) — not compared" % (last(fn), show(st)[:80], show(en)[:80]), wh)
-    r.floor("Range constructions from a span", nr, 3)
+    r.floor("Range constructions from a span", nr, 1)
     # ---- (e) the table stored in a file object is the table of its content
     try:
         fe = cx.F.crate(FE)
@@ -1180,7 +1204,7 @@ def rule_r4(chk, cx):
         fb = cx.ls.hir[fn]
         if "{closure" in fn or fn in cx.converters:
             continue
-        if not any(c.callee in cx.converters for c in hirq.calls(fb["body"], enter_closures=False)):
+        if not call_lines(fb["body"], set(cx.converters)):
             continue
         ex = cx.explore(fn, "calls")
         if isinstance(ex, Unsupported):
@@ -1192,8 +1216,8 @@ def rule_r4(chk, cx):
             for e in s.log[lo:]:
                 if e[0] == "watch" and e[1] in cx.converters:
                     calls[("app", e[1], e[2])] = e[3]
-        docs = set()
         files = {}
+        not_evaluated(r, fn, fb, "conversion", set(cx.converters), set(calls.values()))
         for call, line in sorted(calls.items(), key=lambda kv: kv[1]):
             ti, tbi, oi = cx.sig_roles(cx.ls_fns[call[1]])
             C, Tt, Sp = call[2][ti], call[2][tbi], call[2][oi]
@@ -1201,18 +1225,21 @@ def rule_r4(chk, cx):
             key = "%s:%s" % (fn, last(call[1]))
             r.instance("%s@%d" % (key, line), sample={"content": show(C)[:80], "table": show(Tt)[:80], "span": show(Sp)[:80]})
             whl = where(fb, line)
+            # functions whose result is used as the (name) span: checked per element kind below
+            for y in S.subterms(Sp):
+                if y[0] == "app" and y[1] in cx.ls.hir and y[1] not in cx.converters:
+                    idx = Sp[2] if Sp[0] == "fld" and Sp[2].isdigit() else None
+                    name_fns.setdefault(y[1], set()).add(idx)
             X = None
             if Tt[0] == "fld" and Tt[2] in cx.table_fields:
                 X = Tt[1]
             elif Tt[0] == "app" and Tt[1] == cx.builder and Tt[2] == (C,):
-                docs.add((C, Tt))
                 continue
             else:
                 analysis(r, key + ":table-origin", "%s passes `%s` as line table — neither a file object's table field "
                          "(%s) nor the table built from the very content" % (
                              last(fn), show(Tt)[:60], ", ".join(sorted(cx.table_fields)) or "none known"), whl)
                 continue
-            docs.add((C, Tt))
             files[call] = X
             if not subterm_of(X, C):
                 r.violation(key + ":content-and-line-table-from-different-files",
@@ -1220,19 +1247,12 @@ def rule_r4(chk, cx):
                             "computed against another file's line table — it lies outside the document (or the slice "
                             "panics)" % (last(fn), show(C)[:70], show(X)[:70]), whl)
                 continue
-            inner = [y for y in S.subterms(X) if y[0] == "app" and y != X]
-            if not (subterm_of(X, Sp) or any(subterm_of(y, Sp) for y in inner)):
+            # the file is looked up in a container (first argument) by a key: the span must derive from that key
+            keyl = leaves(X) - (leaves(X[2][0]) if X[0] == "app" and X[2] else set())
+            if not subterm_of(X, Sp) and keyl and not (keyl & leaves(Sp)):
                 r.violation(key + ":span-of-another-object", "%s converts the span `%s` with the file `%s`, but the "
-                            "span is not derived from that file or from the element the file was looked up for" % (
-                                last(fn), show(Sp)[:70], show(X)[:70]), whl)
-            # functions whose result is used as the (name) span
-            for y in S.subterms(Sp):
-                if y[0] == "app" and y[1] in cx.ls.hir and y[1] not in cx.converters:
-                    idx = Sp[2] if Sp[0] == "fld" and Sp[2].isdigit() else None
-                    name_fns.setdefault(y[1], set()).add(idx)
-        if len(docs) > 1:
-            r.violation(fn + ":mixed-documents", "%s converts spans of one symbol against %d different (content, line "
-                        "table) pairs: the symbol's ranges do not refer to one document" % (last(fn), len(docs)), wh)
+                            "span is not derived from that file nor from what the file was looked up with (%s)" % (
+                                last(fn), show(Sp)[:70], show(X)[:70], ", ".join(sorted(show(x) for x in keyl))), whl)
         # the symbol literal
         for (_k, s, _t, _L, lo) in ex.states():
             for e in s.log[lo:]:
